@@ -349,6 +349,35 @@ def holdsFilter [DecidableEq α] (t : Table α) (ax : Axis) (keep : Keep α) (in
     (o : FilterObs α) : Bool :=
   (verdictFilter t ax keep invert inplace o).isNone
 
+def isEmptyTable (t : Table α) : Bool := t.obs.isEmpty || t.samp.isEmpty
+
+/-- is the request one the library accepts (all named IDs known / a function)? -/
+def validKeep (t : Table α) (ax : Axis) : Keep α → Bool
+  | .ids l => l.all (fun id => (t.ids ax).contains id)
+  | .pred _ => true
+  | .other => false
+
+open Codec in
+/-- `verdictFilter` under an error profile.  With `empty='raise'` a request whose specified result has an
+empty axis must raise `TableException`; the receiver is then judged as without the profile: unchanged
+for a copying call, the (empty) specified result for an in-place call. -/
+def verdictFilterP [DecidableEq α] (emptyRaise : Bool) (t : Table α) (ax : Axis) (keep : Keep α)
+    (invert inplace : Bool) (o : FilterObs α) : Verdict :=
+  if emptyRaise && validKeep t ax keep &&
+      ((keptIds t ax keep invert).isEmpty || (t.ids ax.other).isEmpty) then
+    allV [chk "empty-result-raises-under-empty=raise" (eqb (errOf o.result) (some .tableException)),
+          if inplace then verdictFilter t ax keep invert true { o with result := .ok o.after }
+          else chk "receiver" (eqb o.after t)]
+  else verdictFilter t ax keep invert inplace o
+
+/-- the call under the profile `empty='raise'`: `errcheck(table)` runs after the result is installed -/
+def filterCallP [Zero α] (emptyRaise : Bool) (t : Table α) (layout : CS α) (ax : Axis) (keep : Keep α)
+    (invert inplace : Bool) : FilterOut α :=
+  let o := filterCall t layout ax keep invert inplace
+  match o.result with
+  | .ok r => if emptyRaise && isEmptyTable r then { o with result := .error .tableException } else o
+  | .error _ => o
+
 /-- which axes `remove_empty(axis=…)` works on -/
 inductive REAxis where
   | one (ax : Axis)
@@ -438,6 +467,15 @@ def lookupsOf (r : Table α) (removedObs removedSamp : List Id) : Lookups α :=
   { obsIndex := r.obs.map (indexOf? r.obs), sampIndex := r.samp.map (indexOf? r.samp),
     obsData := some (r.obs.map (r.vec? .obs)), sampData := some (r.samp.map (r.vec? .samp)),
     stale := removedObs.filter (fun id => r.obs.contains id) ++ removedSamp.filter (fun id => r.samp.contains id) }
+
+/-- a live table that is not the receiver of the call: must be what it was and answer its own lookups -/
+structure Bystander (α : Type) where
+  before : Table α
+  after : Table α
+  lk : Lookups α
+
+def holdsBystanders [DecidableEq α] (bs : List (Bystander α)) : Bool :=
+  bs.all (fun b => eqb b.after b.before && holdsLookups b.after b.lk)
 
 /-- kernel level, ID collections: the output is a well-formed matrix whose dense content is the
 input's content restricted to the requested vectors; ids and metadata are compressed alike -/
@@ -584,8 +622,16 @@ def handleFilter (req : Json) : R Json := do
   let obs : FilterObs Rat := {
     result := (← asResult (← fld oj "result")), after := (← asTable (← fld oj "after")), calls := calls,
     viaIds := (← optF asResult oj "via_ids") }
-  let v := Verdict.and (verdictFilter t ax keep invert inplace obs) (← lookupVerdict oj obs.result obs.after)
-  let m := modelFilterObs t layout ax keep invert inplace
+  let emptyRaise := (← strFD req "empty_profile" "") == "raise"
+  let bystanders ← match optFld oj "bystanders" with
+    | some b => asList (fun j => do
+        pure ({ before := (← asTable (← fld j "before")), after := (← asTable (← fld j "after")),
+                lk := (← asLookups (← fld j "lk")) } : Bystander Rat)) b
+    | none => pure []
+  let v := Verdict.and (Verdict.and (verdictFilterP emptyRaise t ax keep invert inplace obs)
+    (← lookupVerdict oj obs.result obs.after)) (chk "bystander-tables-unchanged" (holdsBystanders bystanders))
+  let m0 := modelFilterObs t layout ax keep invert inplace
+  let m := { m0 with result := (filterCallP emptyRaise t layout ax keep invert inplace).result }
   let agree := resEq m.result obs.result && m.after == obs.after && m.calls == obs.calls &&
     (match m.viaIds, obs.viaIds with
      | some a, some b => resEq a b
@@ -599,7 +645,20 @@ def handleFilter (req : Json) : R Json := do
     ("calls", .arr (m.calls.map callToJson).toArray),
     ("via_ids", optToJson resultToJson m.viaIds)]
   pure (answer v agree mj [("twin_ok", .bool twinOk),
-    ("model_holds", .bool (holdsFilter t ax keep invert inplace m))])
+    ("model_holds", .bool (verdictFilterP emptyRaise t ax keep invert inplace m).isNone)])
+
+/-- a request the library must refuse (e.g. an unknown axis name): an error, the table unchanged and coherent -/
+def handleRefused (req : Json) : R Json := do
+  let t ← asTable (← fld req "t")
+  let expect ← strF req "expect"
+  let oj ← fld req "obs"
+  let result ← asResult (← fld oj "result")
+  let after ← asTable (← fld oj "after")
+  let v := Verdict.and (allV [chk "refused-request-is-an-error" (errOf result).isSome,
+                              chk "refused-request-leaves-table-unchanged" (eqb after t)])
+                       (← lookupVerdict oj result after)
+  let agree := match result with | .error e => e == asErr expect | .ok _ => false
+  pure (answer v agree (Json.mkObj [("error", .str expect)]))
 
 def handleRemoveEmpty (req : Json) : R Json := do
   let t ← asTable (← fld req "t")
@@ -666,6 +725,7 @@ def handleOne (req : Json) : R Json := do
   | "remove_empty" => handleRemoveEmpty req
   | "head" => handleHead req
   | "kernel" => handleKernel req
+  | "refused" => handleRefused req
   | s => .error s!"bad op {s}"
 
 /-- one request, or `{"op":"batch","cases":[…]}` → `{"results":[…]}` -/
